@@ -110,6 +110,7 @@ VARIANTS[("sets", "any", 2)] = _fs_rev("ab", "ba", "c")
 
 # frozensets nested in other containers (the stable rendering of a value has to recurse into every container)
 POOLSETS["sets2"] = dict(POOLSETS["sets"])
+POOLSETS["sets2"]["str"] = [_long + "a", _long + "b", "z"]       # equal for the first 300 characters
 POOLSETS["sets2"]["any"] = [(_fs(8, 16, 0), 1), (1, (_fs("ab", "ba", "c"),)), _fs(_fs(8, 16), 3)]
 VARIANTS[("sets2", "any", 0)] = (_fs_rev(8, 16, 0), 1)
 VARIANTS[("sets2", "any", 1)] = (1, (_fs_rev("ab", "ba", "c"),))
